@@ -1,7 +1,10 @@
 (* C16 - Shared symbol table: safe concurrent use, same collisions as one compile.
-   Statements only; proofs in Proofs/Symbols.v and Proofs/SymbolsSpec.v.  The model is the pinned
-   code: Lookup / LookupExtension read a map without the read lock, so the lock discipline is
-   refuted for them and proved for the import paths. *)
+   Statements only; proofs in Proofs/Symbols.v, Proofs/SymbolsSpec.v and Proofs/SymbolsSeq.v.
+   The model follows the repository after commit 3a583125: Lookup / LookupExtension hold the read
+   lock of the node around their map read (lookup_prog_fx, lookup_ext_prog_fx), Import is the
+   pinned one (import_prog_gen false; the theorems hold for the proposed extension pre-check, fx =
+   true, as well).  The statements about the lookups before that commit are kept at the end as
+   history. *)
 From Coq Require Import List NArith ZArith Bool Permutation.
 From PV Require Import Model.Symbols Proofs.Symbols Proofs.SymbolsSpec Proofs.SymbolsSeq.
 Import ListNotations.
@@ -68,6 +71,43 @@ Proof. exact nonvacuous_collision. Qed.
 
 (* ---- safe concurrent use ---- *)
 
+(* every operation (Import, AddExtension, Lookup, LookupExtension), any number of goroutines, any
+   table, any schedule: every read of a map of a node holds R or W of that node, every write W *)
+Theorem C16r_lock_discipline :
+  forall fx T opss sched t th,
+    nth_error (cs_threads (run_sched (init_state T
+       (map (ops_prog_with (op_prog_with (import_prog_gen fx) lookup_prog_fx lookup_ext_prog_fx)) opss)) sched)) t = Some th ->
+    access_ok th = true.
+Proof. exact lock_discipline_fx_lemma. Qed.
+Print Assumptions C16r_lock_discipline.
+
+(* hence no two goroutines are ever about to make conflicting accesses *)
+Theorem C16r_model_drf :
+  forall fx T opss sched i j,
+    race_at (run_sched (init_state T
+       (map (ops_prog_with (op_prog_with (import_prog_gen fx) lookup_prog_fx lookup_ext_prog_fx)) opss)) sched) i j = false.
+Proof. exact model_drf_fx_lemma. Qed.
+Print Assumptions C16r_model_drf.
+
+(* non-vacuity: the schedule that exposed the unlocked read before the fix is harmless now *)
+Example C16r_nonvacuous :
+  race_at (run_sched (init_state race_init
+     (map (ops_prog_with (op_prog_with (import_prog_gen false) lookup_prog_fx lookup_ext_prog_fx)) race_threads)) race_sched) 0 1 = false.
+Proof. vm_compute. reflexivity. Qed.
+
+(* the two halves of the model are one: the step program of Import, run alone, returns what the
+   sequential Import returns and leaves a table that reads alike at every node (also for the
+   repaired Import, fx = true) *)
+Theorem C16_seq_refines :
+  forall fx f T,
+    (forall q, get_node (fst (run_seq (import_prog_gen fx f) T)) q = get_node (fst (import_gen fx f T)) q) /\
+    snd (run_seq (import_prog_gen fx f) T) = snd (import_gen fx f T).
+Proof. exact seq_refines_lemma. Qed.
+Print Assumptions C16_seq_refines.
+
+(* ---- history: the lookups before commit 3a583125 (lookup_prog, lookup_ext_prog: no lock around the
+   final map read).  Not part of the claim about the current code. ---- *)
+
 (* a goroutine running Lookup reaches its read of the symbols map of node [1] holding no lock *)
 Theorem C16_lock_discipline_refuted :
   exists T opss sched t th,
@@ -101,12 +141,3 @@ Theorem C16_model_drf_imports :
 Proof. exact model_drf_imports_lemma. Qed.
 Print Assumptions C16_model_drf_imports.
 
-(* the two halves of the model are one: the step program of Import, run alone, returns what the
-   sequential Import returns and leaves a table that reads alike at every node (also for the
-   repaired Import, fx = true) *)
-Theorem C16_seq_refines :
-  forall fx f T,
-    (forall q, get_node (fst (run_seq (import_prog_gen fx f) T)) q = get_node (fst (import_gen fx f T)) q) /\
-    snd (run_seq (import_prog_gen fx f) T) = snd (import_gen fx f T).
-Proof. exact seq_refines_lemma. Qed.
-Print Assumptions C16_seq_refines.
